@@ -29,9 +29,10 @@ type Job struct {
 	NoAST      bool
 	Type       string // parser type name
 	RuleNames  []string
-	HasActions bool // the grammar has >=1 reachable action (=> Execute exists)
-	AllU       bool // instantiate the probe for uint16/uint32/uint64/uint
-	NoProbe    bool // only generate+compile (C08); no probe, not linked into the runner
+	HasActions bool              // the grammar has >=1 reachable action (=> Execute exists)
+	AllU       bool              // instantiate the probe for uint16/uint32/uint64/uint
+	NoProbe    bool              // only generate+compile (C08); no probe, not linked into the runner
+	Extra      map[string]string // extra files written next to the generated parser (name -> content)
 
 	// results
 	GenExit   int
@@ -173,6 +174,9 @@ func (c *Corpus) Generate() {
 			if j.GenExit != 0 || len(j.GenOut) == 0 {
 				os.Remove(filepath.Join(d, "g.go"))
 				return
+			}
+			for name, content := range j.Extra {
+				os.WriteFile(filepath.Join(d, name), []byte(content), 0o644)
 			}
 			if !j.NoProbe {
 				var pb bytes.Buffer
